@@ -26,8 +26,9 @@ def make_sim(ts):
 class Concrete:
     """Concrete evaluation of z3 terms over a valuation of (state, ghost, input) constants."""
 
-    def __init__(self, c):
+    def __init__(self, c, use_binds=True):
         self.c = c
+        self.fin = c._apply_binds if use_binds else (lambda e: e)
         self.svars = []
         for u in c.units:
             self.svars += list(u.state.values())
@@ -40,8 +41,8 @@ class Concrete:
         # one wide term for all bit-vector next-states: a single substitute+simplify per cycle
         self.bvn = [(v, e) for v, e in self.nextmap if z3.is_bv(v)]
         self.arn = [(v, e) for v, e in self.nextmap if not z3.is_bv(v)]
-        self.wide = z3.Concat(*[c._apply_binds(e) for _, e in self.bvn]) if len(self.bvn) > 1 else \
-            (c._apply_binds(self.bvn[0][1]) if self.bvn else None)
+        self.wide = z3.Concat(*[self.fin(e) for _, e in self.bvn]) if len(self.bvn) > 1 else \
+            (self.fin(self.bvn[0][1]) if self.bvn else None)
 
     def initial(self, rp_value=0):
         env = dict()
@@ -66,7 +67,7 @@ class Concrete:
         return ps
 
     def ev(self, e, pairs):
-        r = z3.simplify(z3.substitute(self.c._apply_binds(e), *pairs))
+        r = z3.simplify(z3.substitute(self.fin(e), *pairs))
         if z3.is_bv_value(r):
             return r.as_long()
         if z3.is_true(r):
@@ -86,7 +87,7 @@ class Concrete:
                 pos -= v.size()
                 new[str(v)] = (v, z3.BitVecVal((val >> pos) & ((1 << v.size()) - 1), v.size()))
         for v, e in self.arn:
-            new[str(v)] = (v, z3.simplify(z3.substitute(self.c._apply_binds(e), *pairs)))
+            new[str(v)] = (v, z3.simplify(z3.substitute(self.fin(e), *pairs)))
         return new
 
 
@@ -113,16 +114,16 @@ def run_real(c, trace, observe_paths=()):
         async def tb(ctx, ts=ts, ffs=ffs, outs=outs, ins=ins, rsts=rsts, doms=doms, myrows=myrows):
             for row in trace:
                 for n, s in ins.items():
-                    ctx.set(s, row.get(ts.prefix + n if False else n, 0) & ((1 << len(s)) - 1))
+                    ctx.set(s, row.get(ts.prefix + n, 0) & ((1 << len(s)) - 1))
                 for n, s in rsts.items():
-                    ctx.set(s, row.get(n, 0) & 1)
+                    ctx.set(s, row.get(ts.prefix + n, 0) & 1)
                 r = {"ff": {}, "out": {}}
                 for name, s in ffs:
                     v = ctx.get(s)
                     r["ff"][name] = v & ((1 << len(s)) - 1) if isinstance(v, int) else int(v) & ((1 << len(s)) - 1)
                 for n, s in outs.items():
                     v = ctx.get(s)
-                    r["out"][n] = int(v) & ((1 << len(s)) - 1)
+                    r["out"][ts.prefix + n] = int(v) & ((1 << len(s)) - 1)
                 myrows.append(r)
                 await ctx.tick(doms[0]) if doms else None
         sim.add_testbench(tb)
@@ -149,58 +150,75 @@ def random_trace(c, cycles, seed):
             for n, v in u.inputs.items():
                 if n in u.clock_inputs:
                     continue
+                kk = u.prefix + n
                 if n in u.reset_inputs:
-                    row[n] = 0
+                    row[kk] = 0
                     continue
                 w = v.size()
                 bias = c.cosim_bias.get(n)
                 if bias is not None:
-                    row[n] = bias(rnd, t)
+                    row[kk] = bias(rnd, t)
                 elif w == 1:
                     # sticky bits: change with probability 1/3, so that handshakes and runs of activity both occur
-                    if n not in hold or rnd.random() < 0.34:
-                        hold[n] = rnd.getrandbits(1)
-                    row[n] = hold[n]
+                    if kk not in hold or rnd.random() < 0.34:
+                        hold[kk] = rnd.getrandbits(1)
+                    row[kk] = hold[kk]
                 else:
                     k = rnd.random()
-                    row[n] = rnd.getrandbits(w) if k < 0.7 else rnd.choice([0, (1 << w) - 1, rnd.getrandbits(min(w, 3))])
+                    row[kk] = rnd.getrandbits(w) if k < 0.7 else rnd.choice([0, (1 << w) - 1, rnd.getrandbits(min(w, 3))])
         tr.append(row)
     return tr
 
 
 def cosim(c, cycles, seed):
     """Translation validation: the z3 transition function, evaluated concretely, must agree with Amaranth's simulator
-    on every flip-flop and output, every cycle, for a random stimulus.  -> (ok, cycles, mismatch description)"""
-    if any(u.binds if hasattr(u, "binds") else False for u in c.units):
-        pass
+    on every flip-flop and output, every cycle, for a random stimulus (each unit on its own: product bindings are
+    not applied here).  -> (ok, cycles, mismatch description)"""
     trace = random_trace(c, cycles, seed)
     real = run_real(c, trace)
-    conc = Concrete(c)
+    conc = Concrete(c, use_binds=False)
     env = conc.initial()
     compared = 0
-    bound = set(str(v) for v, _ in c.binds)
     for t, row in enumerate(trace):
-        # bound inputs are driven by the other unit in the product: take them from the real run of that unit
         pairs = conc.pairs(env, [row])
         for name, val in real[t]["ff"].items():
             mine = env[name][1].as_long()
             compared += 1
             if mine != val:
                 return False, t, f"cycle {t}: register {name}: extracted {mine} != simulator {val}"
-        if not c.binds:
-            for u in c.units:
-                for n, e in u.outputs.items():
-                    mine = conc.ev(e, pairs)
-                    compared += 1
-                    if mine != real[t]["out"][n]:
-                        return False, t, f"cycle {t}: output {n}: extracted {mine} != simulator {real[t]['out'][n]}"
+        for u in c.units:
+            for n, e in u.outputs.items():
+                mine = conc.ev(e, pairs)
+                compared += 1
+                if mine != real[t]["out"][u.prefix + n]:
+                    return False, t, f"cycle {t}: output {u.prefix + n}: extracted {mine} != simulator {real[t]['out'][u.prefix + n]}"
         env = conc.step(env, pairs)
     return True, cycles, f"{compared} register/output values compared"
+
+
+def fill_bound(c, trace):
+    """For a product contract: compute, cycle by cycle, the values of the bound inputs (driven by the other unit's
+    outputs) with the extracted system, so that each real unit can then be simulated on its own with them."""
+    if not c.binds:
+        return trace
+    conc = Concrete(c, use_binds=True)
+    env = conc.initial()
+    inputs = c.all_inputs()
+    out = []
+    for row in trace:
+        pairs = conc.pairs(env, [row])
+        row = dict(row)
+        for var, expr in c.binds:
+            row[str(var)] = conc.ev(var, pairs)
+        out.append(row)
+        env = conc.step(env, pairs)
+    return out
 
 
 def replay(c, trace):
     """Run `trace` on the real design and on the extracted system; evaluate requires / ensures / ghosts per cycle.
     -> dict(agree=bool, mismatch=str, cycles=[{t, ghosts, requires_ok, failed_ensures}], violated=[(t, ensure name)])"""
+    trace = fill_bound(c, trace)
     real = run_real(c, trace)
     conc = Concrete(c)
     env = conc.initial()
@@ -215,14 +233,14 @@ def replay(c, trace):
                 out["agree"] = False
                 out["mismatch"] = f"cycle {t}: register {name}: extracted {mine} != simulator {val}"
         outs = {}
-        if not c.binds:
-            for u in c.units:
-                for n, e in u.outputs.items():
-                    mine = conc.ev(e, pairs)
-                    outs[n] = real[t]["out"][n]
-                    if mine != real[t]["out"][n] and out["agree"]:
-                        out["agree"] = False
-                        out["mismatch"] = f"cycle {t}: output {n}: extracted {mine} != simulator {real[t]['out'][n]}"
+        for u in c.units:
+            for n, e in u.outputs.items():
+                mine = conc.ev(e, pairs)
+                kk = u.prefix + n
+                outs[kk] = real[t]["out"][kk]
+                if mine != real[t]["out"][kk] and out["agree"]:
+                    out["agree"] = False
+                    out["mismatch"] = f"cycle {t}: output {kk}: extracted {mine} != simulator {real[t]['out'][kk]}"
         row = {"t": t, "inputs": {k: v for k, v in trace[t].items() if not k.endswith("clk")}, "outputs": outs,
                "ghosts": {n: env["g." + n][1].as_long() for n in c.ghosts if z3.is_bv_value(env["g." + n][1])}}
         req_ok = all(conc.ev(e, pairs) == 1 for _, e in c.all_requires())
